@@ -42,7 +42,12 @@ FUNCS = {
     'poly5': (('b', '-', ('p', X, 5), ('s', 3, ('p', X, 2))), 'poly'),
     'exp(z)/(2-z)': (('b', '/', ('u', 'exp', X), ('b', '-', ('c', 2.0), X)), 2.0),
     'sin(z)exp(z/2)': (('b', '*', ('u', 'sin', X), ('u', 'exp', ('s', 0.5, X))), 'entire'),
+    # not real on the real axis (no Schwarz symmetry f(conj z) = conj f(z)): the samples of the lower half circle are
+    # not mirror images of those of the upper half, also when z0 is real
+    'exp(iz)': (('u', 'exp', ('s', 1j, X)), 'entire'),
+    '1/(1.5+1.5i-z)': (('b', '/', ('c', 1.0), ('b', '-', ('c', 1.5 + 1.5j), X)), 1.5 + 1.5j),
 }
+NO_SCHWARZ = ('exp(iz)', '1/(1.5+1.5i-z)')
 Z0S = [0.0, 0.5, -0.3 + 0.4j, 0.2j, 0.9 + 0.1j]
 NS = [1, 3, 6, 12, 20, 40, 100]
 RS = [1e-5, 1e-3, 0.0059, 0.1, 1.0]
@@ -384,6 +389,10 @@ def run(ctx):
     for fname in FUNCS:
         for z0 in Z0S:
             for n in NS:
+                if fname in NO_SCHWARZ and n >= 20:
+                    # n >= 20 is the territory of the recorded finding F14 (cases recorded per function); the functions
+                    # without Schwarz symmetry are explored where the unchanged tree is accurate, n <= 12
+                    continue
                 for r in RS:
                     for ratio in RATIOS:
                         for nex in NEXTRAP:
